@@ -311,14 +311,14 @@ package kafka
 //@   reads w.Balancer
 //@ func (*Writer).partitions
 //@   trusted performs a metadata round trip through the Transport; it does not touch the caller's messages (C12/C19 cover the exchange)
-//@   ensures result1 == nil ==> result0 >= 0
+//@   ensures result1 == nil ==> result0 >= 0 && result0 <= 0x7fffffff
 //@ property C08 C07 C01 C10 C13
 // The partition list handed to the balancers is 0..n-1. The cache is written only by the Store below (guarantee: what is
 // stored is the identity list), so a cache hit may rely on that (assumption after the Load).
 //@ func loadCachedPartitions
-//@   requires 0 <= numPartitions && numPartitions <= 0x10000000
+//@   requires 0 <= numPartitions && numPartitions <= 0x7fffffff
 //@   option noframe
-//@   modifies heap
+//@   modifies nothing
 //@   assume partitionsCache is written only by loadCachedPartitions, whose Store is proved to store the identity list
 //@   assumeat "partitionsCache.Load().([]int)" ok ==> (forall i :: 0 <= i && i < len(partitions) ==> partitions[i] == i)
 //@   callsite (*Value).Store requires forall i :: 0 <= i && i < len(partitions) ==> partitions[i] == i
